@@ -207,6 +207,44 @@ def check_key(chk, sh, c_, ks, tier, rng):
     chk.obligation("%s:strain_rotated==diag(T^T diag(e) T),trace-preserved" % ks, "unsat" if good else "sat", kind="identity")
     if not good:
         replay(chk, sh, c_, ks, rng, "rotated strains wrong", strain_only=True)
+    # (3b) the same for a single strain triple (1-D array of three fractions, the form the constructor documents)
+    if tier != "quick" or ks in ("c44", "c15", "c26", "c36"):
+        e1 = symvars("s", (3,), positive=True)
+        proxy1 = NumpyProxy()
+        try:
+            def fn1():
+                with patched((sh, {"numpy": proxy1})):
+                    o1 = sh.ShearElasticModulusPhononContribution(e1, key)
+                    return numpy.asarray(o1.strain_rotated, dtype=object), o1.transformation_matrix
+            sr1, T1 = X.run_single_path(fn1, name="C03:%s:1d" % ks)
+            good1 = sr1.shape == (3,)
+            if good1:
+                for a in range(3):
+                    want = Sym({})
+                    for i in range(3):
+                        want = want + T1[i, a] * T1[i, a] * e1[i]
+                    good1 = good1 and Z.prove_zero(Sym.of(sr1[a]) - want, name="%s:strain_rotated-1d[%d]" % (ks, a), timeout_ms=10000)[0] == "unsat"
+        except SymError as e:
+            good1 = None
+            chk.inconclusive(ks, "1-D strain run: %s" % e)
+        except Exception as e:
+            good1 = False
+        if good1 is not None:
+            chk.obligation("%s:strain_rotated==diag(T^T diag(e) T) for a single strain triple (1-D input)" % ks, "unsat" if good1 else "sat", kind="identity")
+            if not good1:
+                try:
+                    ef = numpy.array([0.2, 0.3, 0.5])
+                    o2 = sh.ShearElasticModulusPhononContribution(ef, key)
+                    Tf = numpy.real(numpy.asarray(o2.transformation_matrix))
+                    got = numpy.real(numpy.asarray(o2.strain_rotated))
+                    wantf = numpy.einsum("ia,i,ia->a", Tf, ef, Tf)
+                    if got.shape != (3,) or numpy.abs(got - wantf).max() > 1e-12:
+                        chk.violation("%s:strain-rotated-1d" % ks, "strain_rotated of %s for the single strain triple [0.2, 0.3, 0.5] is %s, diag(T^T diag(e) T) is %s"
+                                      % (ks, got.tolist(), wantf.tolist()), dict(key=ks))
+                    else:
+                        chk.harness_error("%s: 1-D strain_rotated mismatch did not reproduce" % ks)
+                except Exception as e:
+                    chk.violation("%s:strain-rotated-1d:raises" % ks, "strain_rotated raises %s: %s for a single strain triple" % (type(e).__name__, e), dict(key=ks))
     # (4) other diagonalising frames: sign patterns and column orders; symbolic rotation in a degenerate eigenspace
     lam_f = [float(S._try_numeric(Sym.of(x))) for x in base["lam"]]
     perms = list(itertools.permutations(range(3)))
